@@ -165,9 +165,80 @@ fn run_enum(w: &[&str]) -> String {
     }
 }
 
+fn find_case(b: &ir::ScopeBlock) -> Option<ir::Constant> {
+    for st in &b.0 {
+        match &st.kind {
+            ir::StatementKind::CaseLabel(c) => return Some(c.clone()),
+            ir::StatementKind::Switch(_, inner) | ir::StatementKind::Block(inner) => { if let Some(c) = find_case(inner) { return Some(c); } }
+            _ => {}
+        }
+    }
+    None
+}
+
+/// `<debug> Q # <expr>`: the same int expression as a const initialiser, an enum value, a case label, an array size and
+/// a numthreads argument; every position reports the value it computed
+fn run_positions(expr: &str) -> String {
+    let v = match value_of("int", expr).strip_prefix("OK i Int32 ").map(|s| s.to_string()) { Some(v) => v, None => return "SKIP not an int constant".into() };
+    let vz: i64 = v.parse().unwrap_or(0);
+    let mut out = format!("POS const={}", v);
+    // enum value
+    out += &match catch(|| front_end(&format!("{}enum EQ {{ QA = {} }};\n", PRELUDE, expr))) {
+        Ok(Ok(m)) => {
+            let id = ir::EnumId(m.enum_registry.get_enum_count() - 1);
+            match m.enum_registry.get_values(id).first().map(|x| m.enum_registry.get_enum_value(*x).value.clone()) {
+                Some(ir::Constant::Int32(x)) => format!(" enum={}", x),
+                Some(ir::Constant::UInt32(x)) => format!(" enum={}", x),
+                other => format!(" enum=?{:?}", other),
+            }
+        }
+        Ok(Err(e)) => format!(" enum=REJECT:{}", e),
+        Err(_) => " enum=PANIC".to_string(),
+    };
+    // case label
+    out += &match catch(|| front_end(&format!("{}int qf(int x) {{ switch (x) {{ case {}: return 1; default: return 0; }} }}\n", PRELUDE, expr))) {
+        Ok(Ok(m)) => {
+            let mut found = None;
+            for id in m.function_registry.iter() {
+                if let Some(f) = m.function_registry.get_function_implementation(id) {
+                    if m.function_registry.get_function_name(id) == "qf" { found = find_case(&f.scope_block); }
+                }
+            }
+            match found { Some(c) => format!(" case={}", show_const(&c).replace(' ', ":")), None => " case=?".to_string() }
+        }
+        Ok(Err(e)) => format!(" case=REJECT:{}", e),
+        Err(_) => " case=PANIC".to_string(),
+    };
+    // array size
+    if (1..=65536).contains(&vz) {
+        out += &match catch(|| front_end(&format!("{}static float qa[{}];\n", PRELUDE, expr))) {
+            Ok(Ok(m)) => {
+                let g = m.global_registry.iter().find(|g| g.name.node == "qa" && !g.is_intrinsic).map(|g| g.type_id);
+                match g.map(|t| m.type_registry.get_type_layer(m.type_registry.remove_modifier(t))) {
+                    Some(ir::TypeLayer::Array(_, Some(n))) => format!(" array={}", n),
+                    other => format!(" array=?{:?}", other),
+                }
+            }
+            Ok(Err(e)) => format!(" array=REJECT:{}", e),
+            Err(_) => " array=PANIC".to_string(),
+        };
+    }
+    // numthreads
+    if (1..=64).contains(&vz) {
+        let src = format!("{}[numthreads({}, 1, 1)] void CSQ() {{}}\nPipeline PQ {{ ComputeShader = CSQ; }}\n", PRELUDE, expr);
+        let o = crate::probe::compile_src(&[("main.rssl", &src)], "main.rssl", "HlslForDirectX", false, false, None, &[]);
+        let t = if o.kind == "OK" {
+            match o.pipelines.first().and_then(|p| p.stages.first()).and_then(|s| s.thread_group_size) { Some(t) => t.0.to_string(), None => "?none".to_string() }
+        } else { format!("{}:{}", if o.kind == "PANIC" { "PANIC" } else { "REJECT" }, o.text.lines().next().unwrap_or("").replace(' ', "_")) };
+        out += &format!(" threads={}", t);
+    }
+    out
+}
+
 pub fn run_line(line: &str) -> String {
     let w: Vec<&str> = line.split_whitespace().collect();
     if w.len() > 1 && w[1] == "N" { return run_enum(&w); }
+    if w.len() > 1 && w[1] == "Q" { return match line.split_once(" # ") { Some((_, e)) => run_positions(e.trim()), None => "BAD-CASE".into() }; }
     let parts: Vec<&str> = line.split(" # ").collect();
     if parts.len() != 3 {
         return "BAD-CASE".into();
@@ -295,6 +366,15 @@ pub fn gen_cases(seed: u64, n: usize, _thorough: bool) -> Vec<String> {
                   "i Int32 2147483646", "i Int32 2147483647", "i Int32 -2147483648", "i Int32 -1", "i UInt32 0", "i UInt32 5", "i UInt32 2147483647", "i UInt32 2147483648", "i UInt32 4294967293",
                   "i UInt32 4294967294", "i UInt32 4294967295"] {
         for k in 0..4 { out.push(format!("1 N {} {}", k, first)); }
+    }
+    // the positions that demand a constant: the same int expression in each of them
+    for e in ["1", "2 + 3", "(1 << 4) - 1", "64", "1024 / 4", "65536", "-7", "(int)3u", "7 % 4", "(2147483647 - 2147483646)", "(int)2.9f", "true ? 8 : 9", "(-2147483647 - 1)", "2147483647", "0"] {
+        out.push(format!("1 Q # {}", e));
+    }
+    for _ in 0..n / 10 {
+        let e = gen_int_like(&mut rng, 3, "int");
+        out.push(format!("1 Q # (int)({})", e));
+        out.push(format!("1 Q # (int)((({}) & 63) + 1)", e));
     }
     let mut push = |ty: &str, expr: String, out: &mut Vec<String>| {
         if let Ok(Ok(ir)) = catch(|| ir_of(ty, &expr)) {
